@@ -254,6 +254,10 @@ def unparse_JoinedStr(node: JoinedStr, qm: typing.Literal["'", '"']) -> unparse_
 
 def unparse_FormattedValue(node: FormattedValue, qm) -> unparse_gen_t:
     value = yield PREC_FORMAT_EXPR_SLOT, node.value
+    conversion = ""
+    if getattr(node, "conversion", -1) != -1:
+        # !s, !r or !a
+        conversion = "!" + chr(node.conversion)
     format_spec = ""
     if node.format_spec is not None:
         assert isinstance(node.format_spec, JoinedStr)
@@ -266,7 +270,7 @@ def unparse_FormattedValue(node: FormattedValue, qm) -> unparse_gen_t:
     # f'{{di:ct}:.2f}' (SyntaxError)
     # will be converted as
     # f'{ {di:ct}:.2f}' (Good)
-    return "{" + value + format_spec + "}"
+    return "{" + value + conversion + format_spec + "}"
 
 
 def unparse_Starred(node: Starred) -> unparse_gen_t:
